@@ -526,22 +526,86 @@ def regex_replacement_literal(ctx, rule: str):
         ctx.ok(rule, "no regular-expression substitution in the parser / sanitiser", "formulaic/parser", "nothing to check")
 
 
+def coding_matrices_are_float(ctx, rule: str):
+    """Coding / coefficient matrices hold fractions (scaled Helmert, polynomial, difference codings) and are filled and divided in
+    place: a constructor that pins an integer or boolean dtype truncates those entries — in whichever of the dense / sparse arms it
+    sits, so the two output kinds disagree."""
+    P = ctx.project
+    CTORS = {"lil_matrix", "csc_matrix", "csr_matrix", "dok_matrix", "coo_matrix", "zeros", "ones", "empty", "eye", "identity", "full", "array", "diags"}
+    INTS = {"int", "bool", "numpy.int64", "numpy.int32", "numpy.int_", "numpy.intp", "numpy.bool_", "numpy.uint8", "numpy.int8", "numpy.int16", "'int'", "'int64'", "'bool'", "'i8'", "'i4'"}
+    n = 0
+    for q, f in sorted(P.functions.items()):
+        if isinstance(f.node, ast.Lambda) or not q.startswith("formulaic.transforms.contrasts.") or not any(
+                k in f.node.name for k in ("coding_matrix", "coefficient_matrix")):
+            continue
+        for c in walk_no_nested(f.node):
+            if isinstance(c, ast.Call) and (dotted(c.func) or getattr(c.func, "attr", "")).split(".")[-1] in CTORS:
+                n += 1
+                ctx.look()
+                dt = kwarg(c, "dtype")
+                ctx.check(dt is None or norm(dt) not in INTS, rule, f"{q.replace('formulaic.transforms.contrasts.', '')}: the matrix built by `{norm(c.func)}` can hold fractions",
+                          f.module.line(c), ctx.construct(f, c),
+                          f"`{norm(c)[:80]}` pins dtype `{norm(dt) if dt is not None else ''}`: fractional entries (e.g. the scaled Helmert columns) are truncated in this arm only, "
+                          f"so sparse and dense outputs differ")
+    ctx.floor(rule, n, 8, "matrix constructors in the coding-matrix builders")
+
+
+def resolver_flags_through_setter(ctx, rule: str):
+    """The operator resolver memoises its operator table per instance; the feature flags it was built under are changed only through
+    its own setter, which drops the memo.  A parser that is re-configured after it has parsed once must therefore reach that setter, and
+    nobody assigns the resolver's flags from outside."""
+    P = ctx.project
+    PAR = "formulaic.parser.parser"
+    R = P.cls(f"{PAR}.DefaultOperatorResolver")
+    D = P.cls(f"{PAR}.DefaultFormulaParser")
+    rs = R.methods["set_feature_flags"]
+    ctx.look(3)
+    drops = any((isinstance(st, ast.Delete) and any("operator_table" in norm(t) for t in st.targets)) or
+                (isinstance(st, ast.Expr) and isinstance(st.value, ast.Call) and isinstance(st.value.func, ast.Attribute) and st.value.func.attr == "pop"
+                 and st.value.args and is_const(st.value.args[0], "operator_table")) for st in ast.walk(rs.node))
+    memo = any(isinstance(d, (ast.Name, ast.Attribute)) and norm(d).split(".")[-1] == "cached_property" for m in R.methods.values() for d in m.node.decorator_list)
+    ctx.check(drops or not memo, rule, "DefaultOperatorResolver.set_feature_flags drops the memoised operator table", rs.where, ctx.construct(rs, text="drop operator_table"),
+              "the operator table is cached per resolver; changing the flags without dropping it keeps parsing with the operators of the previous flags")
+    ds = D.methods["set_feature_flags"]
+
+    def reaches(m, depth=0) -> bool:
+        for c in ast.walk(m.node):
+            if isinstance(c, ast.Call) and isinstance(c.func, ast.Attribute):
+                if c.func.attr == "set_feature_flags" and norm(c.func.value) == "self.operator_resolver" and c.args and norm(c.args[0]) == "self.feature_flags":
+                    return True
+                if depth < 2 and norm(c.func.value) == "self" and c.func.attr in D.methods and c.func.attr != m.node.name and reaches(D.methods[c.func.attr], depth + 1):
+                    return True
+        return False
+    ctx.check(reaches(ds), rule, "DefaultFormulaParser.set_feature_flags re-configures its operator resolver through the resolver's setter", ds.where,
+              ctx.construct(ds, text="resolver setter reached"),
+              "after set_feature_flags the resolver must be told through operator_resolver.set_feature_flags(self.feature_flags): a parser that has already parsed "
+              "once otherwise keeps the operator table of its previous flags, so the same formula parses differently depending on the parser's history")
+    outside = [(f, st) for q, f in P.functions.items() if q.startswith("formulaic.") and not isinstance(f.node, ast.Lambda)
+               for st in walk_no_nested(f.node) if isinstance(st, (ast.Assign, ast.AnnAssign, ast.AugAssign))
+               for t in (st.targets if isinstance(st, ast.Assign) else [st.target])
+               if isinstance(t, ast.Attribute) and t.attr == "feature_flags" and norm(t.value) != "self"]
+    for f, st in outside:
+        ctx.fail(rule, f"{f.qualname.replace('formulaic.', '')}: the flags of another object are assigned directly", f.module.line(st), ctx.construct(f, st),
+                 f"`{norm(st)[:90]}` bypasses the setter that invalidates the memoised operator table")
+    ctx.ok(rule, "feature flags of a resolver are only changed through its setter", R.where)
+
+
 _ATTACH = {
     "C01": [("W1", call_opening), ("W2", ordering_coerced), ("W3", scaling_conflict_guard)],
     "C02": [("W1", captured_context_order)],
     "C04": [("W1", lambda c, r: map_dict_discipline(c, r, "state"))],
-    "C05": [("W1", record_frame), ("W2", contrast_wrap_is_positional), ("W3", joint_generation_decision), ("W4", empty_matrix_rows)],
+    "C05": [("W1", record_frame), ("W2", contrast_wrap_is_positional), ("W3", joint_generation_decision), ("W4", empty_matrix_rows), ("W5", coding_matrices_are_float)],
     "C06": [("W1", find_nulls_no_shortcut), ("W2", empty_matrix_rows)],
     "C07": [("W1", joint_generation_decision), ("W2", find_nulls_no_shortcut), ("W3", empty_matrix_rows)],
     "C08": [("W1", record_frame)],
     "C09": [("W1", lambda c, r: map_dict_discipline(c, r, "state"))],
     "C10": [("W1", variables_before_instrumentation)],
-    "C11": [("W1", contrast_wrap_is_positional), ("W2", poly_degree_total)],
-    "C14": [("W1", ast_args_guarded), ("W2", call_opening), ("W3", regex_replacement_literal)],
+    "C11": [("W1", contrast_wrap_is_positional), ("W2", poly_degree_total), ("W3", coding_matrices_are_float)],
+    "C14": [("W1", ast_args_guarded), ("W2", call_opening), ("W3", regex_replacement_literal), ("W4", resolver_flags_through_setter)],
     "C15": [("W1", call_opening), ("W2", sanitizer_discipline), ("W3", regex_replacement_literal)],
     "C17": [("W1", sanitizer_discipline), ("W2", fresh_union), ("W3", variables_before_instrumentation), ("W4", captured_context_order),
             ("W5", derived_memo_invalidated)],
-    "C18": [("W1", lambda c, r: map_dict_discipline(c, r, "fresh")), ("W2", fresh_union)],
+    "C18": [("W1", lambda c, r: map_dict_discipline(c, r, "fresh")), ("W2", fresh_union), ("W3", resolver_flags_through_setter)],
     "C19": [("W1", ordering_coerced), ("W2", derived_memo_invalidated)],
 }
 
@@ -558,19 +622,19 @@ def _shared(modname: str, fname: str):
 
 # mechanisms that several properties stand on (the seeding waves showed mutants of them being filed under any of these properties)
 _SHARED = {
-    "C02": [("X1", "c06", "r3"), ("X2", "c08", "r3"), ("X3", "c06", "r2"), ("X4", "c09", "r1")],
+    "C02": [("X1", "c06", "r3"), ("X2", "c08", "r3"), ("X3", "c06", "r2"), ("X4", "c09", "r1"), ("X5", "c18", "r8"), ("X6", "c17", "r1")],
     "C03": [("X1", "c02", "r7"), ("X2", "c02", "r6"), ("X3", "c18", "r8")],
-    "C04": [("X1", "c02", "r7"), ("X2", "c05", "r3"), ("X3", "c03", "r6"), ("X4", "c09", "r2")],
+    "C04": [("X1", "c02", "r7"), ("X2", "c05", "r3"), ("X3", "c03", "r6"), ("X4", "c09", "r2"), ("X5", "c09", "r1")],
     "C05": [("X1", "c02", "r2"), ("X2", "c04", "r3"), ("X3", "c18", "r8")],
     "C06": [("X1", "c18", "r8"), ("X2", "c05", "r5")],
     "C07": [("X1", "c06", "r5"), ("X2", "c18", "r2"), ("X3", "c18", "r1"), ("X4", "c18", "r8"), ("X5", "c18", "r3")],
-    "C08": [("X1", "c02", "r6")],
-    "C09": [("X1", "c13", "r3")],
-    "C10": [("X1", "c03", "r6"), ("X2", "c03", "r1"), ("X3", "c09", "r2"), ("X4", "c18", "r8")],
+    "C08": [("X1", "c02", "r6"), ("X2", "c18", "r8"), ("X3", "c09", "r1")],
+    "C09": [("X1", "c13", "r3"), ("X3", "c18", "r8")],
+    "C10": [("X1", "c03", "r6"), ("X2", "c03", "r1"), ("X3", "c09", "r2"), ("X4", "c18", "r8"), ("X5", "c09", "r1")],
     "C11": [("X1", "c08", "r3"), ("X2", "c08", "r4"), ("X3", "c09", "r3"), ("X4", "c02", "r7"), ("X5", "c09", "r1")],
     "C13": [("X1", "c18", "r4"), ("X2", "c18", "r8"), ("X3", "c04", "r4")],
     "C17": [("X1", "c10", "r3"), ("X2", "c18", "r4")],
-    "C18": [("X1", "c03", "r3"), ("X2", "c02", "r2")],
+    "C18": [("X1", "c03", "r3"), ("X2", "c02", "r2"), ("X3", "c08", "r2")],
     "C20": [("X1", "c13", "r3"), ("X2", "c02", "r2"), ("X3", "c02", "r7")],
 }
 for _p, _lst in _SHARED.items():
